@@ -271,3 +271,12 @@ impl<F: FixedChannelRegion> RegionHandler for FixedChannelPlan<F> {
         }
     }
 }
+
+#[cfg(lora_rs_verif)]
+impl<F: FixedChannelRegion> FixedChannelPlan<F> {
+    pub(crate) fn verif_snapshot(&self) -> crate::region::verif::RegionSnapshot {
+        let mut mask = [0u8; 9];
+        mask.copy_from_slice(self.channel_mask.as_ref());
+        crate::region::verif::RegionSnapshot::Fixed { mask, join_channels: self.join_channels.verif_snapshot() }
+    }
+}
